@@ -393,6 +393,9 @@ func (in *Interp) convert(dst, src types.Type, x Value) Value {
 	if _, ok := x.(Opaque); ok && in.lenient > 0 {
 		return x
 	}
+	if u, ok := x.(*Union); ok {
+		return in.mapAlts(u, func(_ *Term, v Value) Value { return in.convert(dst, src, v) })
+	}
 	ud, us := dst.Underlying(), src.Underlying()
 	if tp, ok := ud.(*types.Interface); ok && tp != nil {
 		abortf("conversion to type-parameter type")
@@ -760,7 +763,7 @@ func (in *Interp) elemPtrs(base []Value, off int, max int, idx *Term, n *Term, g
 	if len(alts) == 1 {
 		return alts[0].v
 	}
-	if len(alts) > in.maxUnion {
+	if len(alts) > 4096 {
 		abortf("symbolic index over %d elements", len(alts))
 	}
 	return &Union{alts: alts}
@@ -1470,8 +1473,10 @@ func (in *Interp) appendOp(s, e Value, g *Term, cc *ssa.CallCommon) Value {
 	if es, ok := e.(*Str); ok {
 		e = in.strToBytes(es)
 	}
-	return in.mapAlts(s, func(_ *Term, sv Value) Value {
-		return in.mapAlts(e, func(_ *Term, ev Value) Value {
+	g0 := g
+	return in.mapAlts(s, func(gs *Term, sv Value) Value {
+		return in.mapAlts(e, func(ge *Term, ev Value) Value {
+			g := ts.And(g0, gs, ge) // in-place writes only under this alternative's guard
 			sl := sv.(*SliceV)
 			el := ev.(*SliceV)
 			if el.nilS || (el.n.IsConst() && el.n.val == 0) {
